@@ -121,6 +121,15 @@ func c11R1(c *Ctx) {
 			if !ok {
 				reason, ok = c.tabledS(c11AssertTable, fn, "|"+shortType(ta.AssertedType)+"|"+origin)
 			}
+			if !ok && shortType(ta.AssertedType) == "map[string]any" {
+				// a shared helper asserting its parameter: justified if every call site hands it an Unserialize success value
+				if _, isParam := ta.X.(*ssa.Parameter); isParam {
+					if okc, d := c.checkObjectUnserialize(ta); okc {
+						c.ok(rule, key, c.instrPos(ta), d, false)
+						return
+					}
+				}
+			}
 			if !ok {
 				c.bad(rule, key, c.instrPos(ta), fmt.Sprintf("unchecked assertion .(%s) on %s while parsing/preparing is not justified by a dominating validation: file contents of another shape crash the parser", shortType(ta.AssertedType), origin))
 				return
@@ -273,7 +282,7 @@ func (c *Ctx) checkProviderDataValidated() (bool, string) {
 		return false, "no Provider.LoadSchema call in executor.loadSchema"
 	}
 	var unser *ssa.Call
-	from := derivesFrom(ls.Common().Args[0], func(v ssa.Value) bool {
+	from := derivesFromAnySite(ls.Common().Args[0], func(v ssa.Value) bool {
 		call, ok := v.(*ssa.Call)
 		if ok && isMethodNamed(call, "schema.ObjectSchema", "Unserialize") {
 			unser = call
@@ -284,21 +293,36 @@ func (c *Ctx) checkProviderDataValidated() (bool, string) {
 	if !from || unser == nil {
 		return false, "the provider data handed to LoadSchema does not derive from ObjectSchema.Unserialize"
 	}
-	if guardedBy(ls, false, errTestOf(unser)) == nil {
-		return false, "LoadSchema is reachable when the unserialization of the step failed"
+	if unser.Parent() == fn {
+		if guardedBy(ls, false, errTestOf(unser)) == nil {
+			return false, "LoadSchema is reachable when the unserialization of the step failed"
+		}
+	} else {
+		// the unserialization lives in a helper: LoadSchema is on the err==nil edge of the helper call, and the helper
+		// returns a nil error only when the unserialization succeeded
+		okGuard := false
+		eachInstr(fn, func(r instrRef) {
+			call, ok := r.I.(*ssa.Call)
+			if ok && call.Common().StaticCallee() == unser.Parent() && guardedBy(ls, false, errTestOf(call)) != nil && c.succeedsOnlyIf(unser.Parent(), unser) {
+				okGuard = true
+			}
+		})
+		if !okGuard {
+			return false, "LoadSchema is reachable when the unserialization of the step (in " + c.fnName(unser.Parent()) + ") failed"
+		}
 	}
 	// the schema's properties come from ProviderSchema()
 	isProviderSchema := func(v ssa.Value) bool {
 		call, ok := v.(*ssa.Call)
 		return ok && call.Common().IsInvoke() && call.Common().Method.Name() == "ProviderSchema"
 	}
-	schemaFromProvider := derivesFrom(callRecv(unser.Common()), func(v ssa.Value) bool {
+	schemaFromProvider := derivesFromAnySite(callRecv(unser.Common()), func(v ssa.Value) bool {
 		if isProviderSchema(v) {
 			return true
 		}
 		// schema.NewObjectSchema(id, properties) with properties from ProviderSchema()
 		if call, ok := v.(*ssa.Call); ok && calleeName(call.Common()) == pkgSchema+".NewObjectSchema" && len(call.Call.Args) == 2 {
-			return derivesFrom(call.Call.Args[1], isProviderSchema)
+			return derivesFromAnySite(call.Call.Args[1], isProviderSchema)
 		}
 		return false
 	})
@@ -347,7 +371,7 @@ func (c *Ctx) checkStepsCheckedFirst() (bool, string) {
 	guarded := guardedBy(csCall, false, errTestOf(psCall)) != nil
 	// processSteps has the checked assertion with error return, on the same range over workflow.Steps
 	checked := false
-	eachInstr(ps, func(r instrRef) {
+	c.eachInstrLogical(ps, func(r instrRef) {
 		if ta, ok := r.I.(*ssa.TypeAssert); ok && ta.CommaOk && strings.HasPrefix(shortType(ta.AssertedType), "map[any]any") || ok && ta.CommaOk && strings.Contains(ta.AssertedType.String(), "map[any]any") {
 			checked = true
 		}
@@ -360,14 +384,11 @@ func (c *Ctx) checkStepsCheckedFirst() (bool, string) {
 }
 
 func (c *Ctx) checkObjectUnserialize(ta *ssa.TypeAssert) (bool, string) {
-	ex, ok := ta.X.(*ssa.Extract)
-	if !ok {
-		return false, "asserted value is not a call result"
+	isUnser := func(call *ssa.Call) bool { return isMethodNamed(call, "schema.ObjectSchema", "Unserialize") }
+	if !c.successValueOf(ta.X, ta, isUnser, 0) {
+		return false, "the asserted value is not (on every path, at every call site) the result of ObjectSchema.Unserialize on its err==nil edge"
 	}
-	if guardedBy(ta, false, errTestOf(ex.Tuple)) == nil {
-		return false, "assertion on the result of ObjectSchema.Unserialize is not on its err==nil edge"
-	}
-	return true, "on the err==nil edge of (*schema.ObjectSchema).Unserialize, which returns map[string]any for a non-struct-mapped object schema (pluginsdk contract; the schema is built with NewObjectSchema in the same function)"
+	return true, "on the err==nil edge of (*schema.ObjectSchema).Unserialize, which returns map[string]any for a non-struct-mapped object schema (pluginsdk contract; the schema is built with NewObjectSchema)"
 }
 
 // checkScalarKeys: the YAML transform rejects mapping nodes with non-scalar keys, so key nodes are string nodes whose Raw() is a string.
@@ -635,7 +656,7 @@ func visitedGuard(call ssa.Instruction) bool {
 	}
 	marked := false
 	eachInstr(fn, func(r instrRef) {
-		if mu, ok := r.I.(*ssa.MapUpdate); ok && mu.Map == lookupMap && dominates(mu, call) {
+		if mu, ok := r.I.(*ssa.MapUpdate); ok && sameMapValue(mu.Map, lookupMap) && dominates(mu, call) {
 			marked = true
 		}
 	})
@@ -1140,7 +1161,7 @@ func c11R2c(c *Ctx) {
 			}
 			var mark *ssa.MapUpdate
 			eachInstr(fn, func(r2 instrRef) {
-				if mu, ok := r2.I.(*ssa.MapUpdate); ok && mu.Map == lookup.X && dominates(mu, call) {
+				if mu, ok := r2.I.(*ssa.MapUpdate); ok && sameMapValue(mu.Map, lookup.X) && dominates(mu, call) {
 					mark = mu
 				}
 			})
@@ -1151,7 +1172,7 @@ func c11R2c(c *Ctx) {
 			key := "marker-stack@" + c.fnName(fn)
 			isDelete := func(in ssa.Instruction) bool {
 				cl, ok := in.(*ssa.Call)
-				return ok && isBuiltinCall(cl, "delete") && cl.Call.Args[0] == lookup.X
+				return ok && isBuiltinCall(cl, "delete") && sameMapValue(cl.Call.Args[0], lookup.X)
 			}
 			target := func(in ssa.Instruction) bool {
 				if in == ssa.Instruction(lookup) {
@@ -1253,9 +1274,16 @@ func c11R4(c *Ctx) {
 	for f, ch := range c.Scopes().prepare {
 		scope[f] = ch
 	}
+	n := c.constIndexRule(rule, c.sortedFns(scope), c11IndexTable, "a shorter value derived from the file contents panics (index out of range) instead of producing an error")
+	c.minCount(rule, "constant positions in slices of the parse/prepare paths", n, 4)
+}
+
+// constIndexRule: every constant position taken in a slice (s[k], s[a:b]) or in a reflected list ((reflect.Value).Index(k))
+// in fns is dominated by a length test of that very value which implies the position exists, or is tabled.
+func (c *Ctx) constIndexRule(rule string, fns []*ssa.Function, table map[string]string, consequence string) int {
 	n := 0
 	cnt := map[string]int{}
-	for _, fn := range c.sortedFns(scope) {
+	for _, fn := range fns {
 		eachInstr(fn, func(r instrRef) {
 			var base ssa.Value
 			need := int64(-1) // the slice must have at least `need` elements
@@ -1270,6 +1298,15 @@ func c11R4(c *Ctx) {
 					return
 				}
 				base, need, what = x.X, k+1, fmt.Sprintf("index %d", k)
+			case *ssa.Call:
+				if calleeName(x.Common()) != "(reflect.Value).Index" || len(x.Call.Args) != 2 {
+					return
+				}
+				k, ok := constInt(x.Call.Args[1])
+				if !ok {
+					return
+				}
+				base, need, what = x.Call.Args[0], k+1, fmt.Sprintf("reflect index %d", k)
 			case *ssa.Slice:
 				if _, isSlice := x.X.Type().Underlying().(*types.Slice); !isSlice {
 					return
@@ -1309,15 +1346,15 @@ func c11R4(c *Ctx) {
 			if cnt[tk] > 1 {
 				key += fmt.Sprintf("#%d", cnt[tk])
 			}
-			if why, ok := c11IndexTable[tk]; ok {
+			if why, ok := table[tk]; ok {
 				c.ok(rule, key, c.instrPos(r.I), "tabled: "+why, false)
 				return
 			}
-			c.verdict(lenImplies(r.I, base, need), rule, key, c.instrPos(r.I), fmt.Sprintf("a dominating test of len() guarantees at least %d elements", need),
-				fmt.Sprintf("%s of %s is not guarded by a length test that guarantees %d elements: a shorter value derived from the file contents panics (index out of range) instead of producing an error", what, origin, need))
+			c.verdict(lenImplies(r.I, base, need), rule, key, c.instrPos(r.I), fmt.Sprintf("a dominating test of the length guarantees at least %d elements", need),
+				fmt.Sprintf("%s of %s is not guarded by a length test that guarantees %d elements: %s", what, origin, need, consequence))
 		})
 	}
-	c.minCount(rule, "constant positions in slices of the parse/prepare paths", n, 4)
+	return n
 }
 
 // lenImplies: on every path to `at`, a branch on len(base) (same value, or another load of the same cell / range element)
@@ -1337,7 +1374,7 @@ func lenImplies(at ssa.Instruction, base ssa.Value, need int64) bool {
 				return false
 			}
 			l, ok := b.X.(*ssa.Call)
-			if !ok || !isBuiltinCall(l, "len") || !sameSlice(l.Call.Args[0]) {
+			if !ok || len(l.Call.Args) == 0 || !(isBuiltinCall(l, "len") || calleeName(l.Common()) == "(reflect.Value).Len") || !sameSlice(l.Call.Args[0]) {
 				return false
 			}
 			k, ok := constInt(b.Y)
@@ -1484,4 +1521,17 @@ func throughParamsNoBind(v ssa.Value) ssa.Value {
 		}
 	}
 	return v
+}
+
+// sameMapValue: the same map: one SSA value, or two loads of the same field of the same object (a set kept in a field
+// of a collector struct instead of being passed along as a parameter).
+func sameMapValue(a, b ssa.Value) bool {
+	if sameVal(a, b) {
+		return true
+	}
+	fa, fb := loadedField(a), loadedField(b)
+	if fa == nil || fa != fb {
+		return false
+	}
+	return sameVal(baseOfFieldLoad(a), baseOfFieldLoad(b))
 }
